@@ -3717,6 +3717,67 @@ def bf3(m, run):
                'geomdl/helpers.py:%d in %s' % (fi.node.lineno, fi.key))
 
 
+def bf4(m, run):
+    """BF4: helpers.basis_function_one interpreted with exact rational arithmetic on one knot vector of every clamped order type (degree
+    1..2, thorough 3; n = p+1..p+3 control points; unevenly spaced knots), for every function index and the parameter at every distinct knot
+    and at the midpoint of every non-empty span: the value is N_{i,p}(u) of the Cox-de Boor recursion on half-open spans, the last knot
+    belonging to the last non-empty span (so N_{n-1,p} = 1 there and every other function 0) - whatever path (early return or the
+    triangular table) produces it"""
+    from fractions import Fraction as F
+    from .skel import Sym
+    from .poly import Poly
+    T = Poly.atom('t')
+    fone = m.func('helpers.basis_function_one')
+    P = 3 if run.tier == 'thorough' else 2
+    bad, cnt = [], 0
+    for p in range(1, P + 1):
+        for n in range(p + 1, p + 4):
+            for ranks in knot_order_types(p, n, True):
+                kv = [F(r) + F(r * r, 4) for r in ranks]
+                memo = {}
+
+                def N(i, d, k):
+                    key = (i, d, k)
+                    if key not in memo:
+                        if d == 0:
+                            r = Poly.const(1) if i == k else Poly()
+                        else:
+                            r = Poly()
+                            den1 = kv[i + d] - kv[i]
+                            if den1 != 0:
+                                r = r + (T - kv[i]) * N(i, d - 1, k) * (1 / F(den1))
+                            den2 = kv[i + d + 1] - kv[i + 1]
+                            if den2 != 0:
+                                r = r + (Poly.const(kv[i + d + 1]) - T) * N(i + 1, d - 1, k) * (1 / F(den2))
+                        memo[key] = r
+                    return memo[key]
+                dist = sorted(set(kv))
+                pos = []
+                for a, b in zip(dist, dist[1:]):
+                    pos += [a, (a + b) / 2]
+                pos.append(dist[-1])
+                last_span = max(k for k in range(p, n) if kv[k] != kv[k + 1])
+                for u in pos:
+                    k = last_span if u == kv[-1] else max(j for j in range(len(kv) - 1) if kv[j] <= u)
+                    for i in range(n):
+                        cnt += 1
+                        want = N(i, p, k).subs('t', Poly.const(u)) if k - p <= i <= k else Poly()
+                        sk = SK(m, {})
+                        sk.exact = True
+                        try:
+                            out = sk.call(fone, [p, list(kv), i, u], {})
+                            s_ = _as_sym(out)
+                            if s_ is None or not s_.same(Sym(want)):
+                                bad.append(('degree %d, knots %s, function %d, u = %s' % (p, [str(x) for x in kv], i, u), 'returns %s, N_{%d,%d}(u) is %r' % (repr(out)[:80], i, p, want)))
+                        except Violation as v:
+                            bad.append(('degree %d, knots %s, function %d, u = %s' % (p, [str(x) for x in kv], i, u), '%s %s' % (v.msg, v.where())))
+                        except Unsupported as ex:
+                            raise AnalysisError('%s: interpreter met an unsupported construct: %s' % (fone.key, ex))
+    run.ob('BF4.single-basis-function-at-knots-and-between', 'helpers.basis_function_one :: %d (order type, function, parameter) cases' % cnt, not bad,
+           'equal to the Cox-de Boor value, the last knot taken in the last non-empty span' if not bad else '%s: %s   [%d of %d cases]' % (bad[0][0], bad[0][1], len(bad), cnt),
+           'geomdl/helpers.py:%d in %s' % (fone.node.lineno, fone.key))
+
+
 # ====================================================================================== C02: derivative control points exactly
 def pk3(m, run):
     """PK3: helpers.curve_deriv_cpts (A3.3) and helpers.surface_deriv_cpts (A3.7) interpreted on exact rational knots and symbolic control
